@@ -86,6 +86,88 @@ theorem hBlob_of_get {s : State} {k : Key} {b : Blob} {inc : Nat} (h : s.blobs.g
 theorem cover_nil_append {dirty : List Nat} {a b : List Md} (h : Cover dirty a b) : Cover ([] ++ dirty) a b := by
   simpa using h
 
+theorem take_len_take (l : List Nat) (p : Nat) : l.take ((l.take p).length) = l.take p := by
+  rw [List.length_take, ← List.take_take]
+  simp
+
+/-- appending the next chunk to the first `c` bytes gives the first `c + |chunk|` bytes -/
+theorem take_chunk (B : List Nat) (c p : Nat) :
+    B.take c ++ (if p = 0 then B.drop c else (B.drop c).take p) =
+      B.take (c + (if p = 0 then B.drop c else (B.drop c).take p).length) := by
+  split
+  · rw [List.take_append_drop, List.length_drop]
+    exact (List.take_of_length_le (by omega)).symm
+  · rw [List.take_add, take_len_take]
+
+theorem phaseW_copy {w : Worker} {m : Blob} {d : Option Blob} {B : Bytes} {dirty : List Nat}
+    (h : w.pc = .fCopy ∨ w.pc = .fCopyEof) :
+    PhaseW w m d B dirty = (DiskPartial d (B.take w.copied) w.dinc ∧ Cover dirty [] m.mds ∧ w.minc = m.inc) := by
+  rcases h with h | h <;> simp only [PhaseW, h]
+
+/-- **one `Read`/`Write` round of the copy loop** (any chunk length) -/
+theorem inv2_copyStep {s : GState} (hi : Inv2 s) (i : Nat) (w : Worker) (pick : Nat)
+    (hw : s.t.workers[i]? = some w) (hpc : w.pc = .fCopy ∨ w.pc = .fCopyEof) :
+    Inv2 (wnext s i (copyStep s.t w pick).1 (copyStep s.t w pick).2) := by
+  have hgood := hi.inv1.good
+  have hfw : w.pc ≠ .idle ∧ w.pc ≠ .next ∧ w.pc ≠ .unban := by rcases hpc with h | h <;> simp [h]
+  unfold copyStep
+  cases hMb : hBlob s.t.mem { key := w.key, inc := w.minc } with
+  | none =>
+    simp only
+    refine inv2_local_step hi i w { w with pc := .fCopied true } s.t hw rfl rfl rfl hgood rfl rfl rfl rfl
+      (dirtyOf s.t w.ent) (.inl ⟨rfl, rfl⟩) rfl rfl (by simp [hfw]) (by simp [hfw]) ?_
+    intro B m hm _ _ _ hph
+    rw [phaseW_copy hpc] at hph
+    rw [hBlob_of_get hm hph.2.2.symm] at hMb; simp at hMb
+  | some b =>
+    simp only
+    by_cases hlen : b.data.length ≤ w.copied
+    · simp only [hlen, if_true]
+      refine inv2_local_step hi i w { w with pc := .fCopied false } s.t hw rfl rfl rfl hgood rfl rfl rfl rfl
+        (dirtyOf s.t w.ent) (.inl ⟨rfl, rfl⟩) rfl rfl (by simp [hfw]) (by simp [hfw]) ?_
+      intro B m hm _ hdn hxx hph
+      rw [phaseW_copy hpc] at hph
+      simp only [PhaseW]
+      have hb := (hBlob_some hMb).1
+      rw [hm] at hb; simp at hb; subst hb
+      have hB : m.data = B := ((hi.key w.key).done_m B m hdn hxx hm).1
+      have : B.take w.copied = B := List.take_of_length_le (by rw [← hB]; exact hlen)
+      rw [this] at hph
+      exact ⟨by first | rfl | trivial, hph.1, hph.2.1⟩
+    · simp only [hlen, if_false]
+      cases hDb : hBlob s.t.disk { key := w.key, inc := w.dinc } with
+      | none =>
+        simp only
+        refine inv2_local_step hi i w _ s.t hw rfl rfl rfl hgood rfl rfl rfl rfl
+          (dirtyOf s.t w.ent) (.inl ⟨rfl, rfl⟩) rfl rfl (by simp [hfw]) (by simp [hfw]) ?_
+        intro B m hm _ _ _ hph
+        rw [phaseW_copy hpc] at hph
+        obtain ⟨⟨d, hd, _, _, _, hdi⟩, _⟩ := hph
+        rw [hBlob_of_get hd hdi] at hDb; simp at hDb
+      | some db =>
+        simp only
+        have hdb := (hBlob_some hDb).1
+        refine inv2_disk_step hi i w _ (setData s.t.disk w.key db _) hw
+          (good_setData' hgood.2 _ _ _ hdb) (touch_setData _ _ _ _)
+          (fun h => by rw [hdb] at h; simp at h) ?_ rfl rfl hfw (by simp) ?_
+        · intro d hd
+          simp only [setData, BMap.get_set_self] at hd
+          simp at hd; subst hd
+          exact (hi.key w.key).nd_d db hdb
+        · intro B m hm _ hdn hxx hph
+          rw [phaseW_copy hpc] at hph
+          simp only [PhaseW]
+          have hb := (hBlob_some hMb).1
+          rw [hm] at hb; simp at hb; subst hb
+          have hB : m.data = B := ((hi.key w.key).done_m B m hdn hxx hm).1
+          obtain ⟨⟨d, hd, hc, hdat, hmd, hdi⟩, hcov, hmi⟩ := hph
+          rw [hdb] at hd; simp at hd; subst hd
+          refine ⟨⟨{ db with data := db.data ++ (if pick = 0 then m.data.drop w.copied else (m.data.drop w.copied).take pick) },
+            by simp [setData], hc, ?_, hmd, hdi⟩, hcov, hmi⟩
+          show db.data ++ _ = _
+          rw [hdat, hB]
+          exact take_chunk B w.copied pick
+
 /-- **every worker step preserves the invariant** -/
 theorem inv2_wstep_all {s : GState} (hi : Inv2 s) (i : Nat) (w : Worker) (pick : Nat)
     (hw : s.t.workers[i]? = some w) :
@@ -126,79 +208,15 @@ theorem inv2_wstep_all {s : GState} (hi : Inv2 s) (i : Nat) (w : Worker) (pick :
         exact ⟨hph.1, hph.2, by first | rfl | trivial⟩
   | fCreated =>
     unfold wstep; simp only [hpc]
-    exact inv2_local_step hi i w { w with pc := .fCopy } s.t hw rfl rfl rfl hgood rfl rfl rfl rfl
+    exact inv2_local_step hi i w { w with pc := .fCopy, copied := 0 } s.t hw rfl rfl rfl hgood rfl rfl rfl rfl
       (dirtyOf s.t w.ent) (.inl ⟨rfl, rfl⟩) rfl rfl (by simp [hpc]) (by simp [hpc])
-      (by intro B m _ _ _ _ h; simp only [PhaseW, hpc] at h ⊢; exact h)
+      (by intro B m _ _ _ _ h; simp only [PhaseW, hpc] at h ⊢; simpa using h)
   | fCopy =>
-    unfold wstep; simp only [hpc]
-    have hfw := pc_flight hpc (by simp) (by simp) (by simp)
-    cases hMb : hBlob s.t.mem { key := w.key, inc := w.minc } with
-    | none =>
-      simp only
-      refine inv2_local_step hi i w { w with pc := .fCopied true } s.t hw rfl rfl rfl hgood rfl rfl rfl rfl
-        (dirtyOf s.t w.ent) (.inl ⟨rfl, rfl⟩) rfl rfl (by simp [hpc]) (by simp [hpc]) ?_
-      intro B m hm _ _ _ hph
-      simp only [PhaseW, hpc] at hph
-      rw [hBlob_of_get hm hph.2.2.symm] at hMb; simp at hMb
-    | some b =>
-      simp only
-      by_cases hemp : b.data.isEmpty = true
-      · simp only [hemp, if_true]
-        refine inv2_local_step hi i w { w with pc := .fCopied false } s.t hw rfl rfl rfl hgood rfl rfl rfl rfl
-          (dirtyOf s.t w.ent) (.inl ⟨rfl, rfl⟩) rfl rfl (by simp [hpc]) (by simp [hpc]) ?_
-        intro B m hm _ hdn hxx hph
-        simp only [PhaseW, hpc] at hph ⊢
-        have hb := (hBlob_some hMb).1
-        rw [hm] at hb; simp at hb; subst hb
-        have hB : m.data = B := ((hi.key w.key).done_m B m hdn hxx hm).1
-        have : B = [] := by rw [← hB]; simpa using hemp
-        subst this
-        exact ⟨by first | rfl | trivial, hph.1, hph.2.1⟩
-      · simp only [hemp, if_false]
-        cases hDb : hBlob s.t.disk { key := w.key, inc := w.dinc } with
-        | none =>
-          simp only
-          refine inv2_local_step hi i w { w with pc := .fCopyEof } s.t hw rfl rfl rfl hgood rfl rfl rfl rfl
-            (dirtyOf s.t w.ent) (.inl ⟨rfl, rfl⟩) rfl rfl (by simp [hpc]) (by simp [hpc]) ?_
-          intro B m hm _ _ _ hph
-          simp only [PhaseW, hpc] at hph
-          obtain ⟨⟨d, hd, _, _, _, hdi⟩, _⟩ := hph
-          rw [hBlob_of_get hd hdi] at hDb; simp at hDb
-        | some db =>
-          simp only
-          have hdb := (hBlob_some hDb).1
-          refine inv2_disk_step hi i w { w with pc := .fCopyEof } (setData s.t.disk w.key db b.data) hw
-            (good_setData' hgood.2 _ _ _ hdb) (touch_setData _ _ _ _)
-            (fun h => by rw [hdb] at h; simp at h) ?_ rfl rfl hfw (by simp) ?_
-          · intro d hd
-            simp only [setData, BMap.get_set_self] at hd
-            simp at hd; subst hd
-            exact (hi.key w.key).nd_d db hdb
-          · intro B m hm _ hdn hxx hph
-            simp only [PhaseW, hpc] at hph ⊢
-            have hb := (hBlob_some hMb).1
-            rw [hm] at hb; simp at hb; subst hb
-            have hB : m.data = B := ((hi.key w.key).done_m B m hdn hxx hm).1
-            obtain ⟨⟨d, hd, hc, _, hmd, hdi⟩, hcov, hmi⟩ := hph
-            rw [hdb] at hd; simp at hd; subst hd
-            refine ⟨⟨{ db with data := m.data }, by simp [setData], hc, hB, hmd, hdi⟩, hcov, hmi⟩
+    have := inv2_copyStep hi i w pick hw (.inl hpc)
+    unfold wstep; simp only [hpc]; exact this
   | fCopyEof =>
-    unfold wstep; simp only [hpc]
-    cases hMb : hBlob s.t.mem { key := w.key, inc := w.minc } with
-    | none =>
-      simp only
-      refine inv2_local_step hi i w { w with pc := .fCopied true } s.t hw rfl rfl rfl hgood rfl rfl rfl rfl
-        (dirtyOf s.t w.ent) (.inl ⟨rfl, rfl⟩) rfl rfl (by simp [hpc]) (by simp [hpc]) ?_
-      intro B m hm _ _ _ hph
-      simp only [PhaseW, hpc] at hph
-      rw [hBlob_of_get hm hph.2.2.symm] at hMb; simp at hMb
-    | some b =>
-      simp only
-      refine inv2_local_step hi i w { w with pc := .fCopied false } s.t hw rfl rfl rfl hgood rfl rfl rfl rfl
-        (dirtyOf s.t w.ent) (.inl ⟨rfl, rfl⟩) rfl rfl (by simp [hpc]) (by simp [hpc]) ?_
-      intro B m _ _ _ _ hph
-      simp only [PhaseW, hpc] at hph ⊢
-      exact ⟨by first | rfl | trivial, hph.1, hph.2.1⟩
+    have := inv2_copyStep hi i w pick hw (.inr hpc)
+    unfold wstep; simp only [hpc]; exact this
   | fCopied ev =>
     unfold wstep; simp only [hpc]
     have hfw := pc_flight hpc (by simp) (by simp) (by simp)
